@@ -24,7 +24,7 @@ try:
     env2 = dict(env, VERIF_REPO=dst, VERIF_EVIDENCE_DIR=os.path.join(d, 'evidence'), VERIF_REPLAY_DIR=os.path.join(d, 'replays'))
     r = subprocess.run([os.path.join(V, 'check'), prop] + extra, env=env2, capture_output=True, text=True, timeout=3000)
     for line in r.stdout.splitlines():
-        if line.startswith(('VIOLATION', '  failed', 'UNDECIDED', 'CHECKER', 'KNOWN')) or 'tier=' in line:
+        if line.startswith(('VIOLATION', '  failed', 'UNDECIDED', 'STALE', 'CHECKER', 'KNOWN')) or 'tier=' in line:
             print(line[:260])
     print('check exit', r.returncode)
     if r.returncode == 3:
